@@ -80,7 +80,30 @@ func newC14Model(c *kit.Ctx) *c14Model {
 	// window struct: the struct type with exactly two time.Time fields whose
 	// literals are built in the predicate
 	info := ch.aft.Info()
-	ast.Inspect(ch.aft.Body, func(n ast.Node) bool {
+	// the predicate and the same-package helpers it calls (two levels)
+	bodies := []*kit.Func{ch.aft}
+	for level := 0; level < 2; level++ {
+		for _, g := range append([]*kit.Func(nil), bodies...) {
+			for _, call := range g.AllCalls(true) {
+				h := g.CalleeFunc(call)
+				if h == nil || h.Body == nil || h.Pkg != ch.aft.Pkg {
+					continue
+				}
+				dup := false
+				for _, b := range bodies {
+					dup = dup || b == h
+				}
+				if !dup {
+					bodies = append(bodies, h)
+				}
+			}
+		}
+	}
+	var allBodies ast.Node = &ast.BlockStmt{}
+	for _, g := range bodies {
+		allBodies.(*ast.BlockStmt).List = append(allBodies.(*ast.BlockStmt).List, g.Body)
+	}
+	ast.Inspect(allBodies, func(n ast.Node) bool {
 		cl, ok := n.(*ast.CompositeLit)
 		if !ok {
 			return true
@@ -265,10 +288,46 @@ func (u *c14UTC) isUTC(f *kit.Func, e ast.Expr) (int, string) {
 			u.vars[o], u.why[o] = c14ToMemo(r), w
 			return r, w
 		}
-		for _, p := range f.Root().Params() {
-			if p == v {
-				return set(c14No, fmt.Sprintf("parameter `%s` of %s carries the caller's time zone", v.Name(), f.Root().Name))
+		for pi, p := range f.Root().Params() {
+			if p != v {
+				continue
 			}
+			root := f.Root()
+			if root == u.cm.ch.aft || root.Obj == nil {
+				return set(c14No, fmt.Sprintf("parameter `%s` of %s carries the caller's time zone", v.Name(), root.Name))
+			}
+			// a helper of the schedule code: what do its callers pass?
+			u.vars[o] = 1
+			res, why := c14Yes, ""
+			nsites, outside := 0, false
+			for _, g := range u.cm.c.P.Funcs(ruClientPkg) {
+				if g.Body == nil || g.Outer != nil {
+					continue
+				}
+				inSched := false
+				for _, sf := range u.cm.funcs {
+					inSched = inSched || sf == g
+				}
+				for _, call := range g.AllCalls(true) {
+					if g.CalleeFunc(call) != root || pi >= len(call.Args) {
+						continue
+					}
+					nsites++
+					if !inSched {
+						outside = true
+						continue
+					}
+					r, w := u.isUTC(g, call.Args[pi])
+					if r < res {
+						res, why = r, fmt.Sprintf("`%s` passed to %s at %s: %s", g.Str(call.Args[pi]), root.Name, g.At(call), w)
+					}
+				}
+			}
+			switch {
+			case nsites == 0 || outside:
+				return set(c14Unknown, fmt.Sprintf("parameter `%s` of %s: not every caller is part of the schedule code", v.Name(), root.Name))
+			}
+			return set(res, why)
 		}
 		u.vars[o] = 1 // coinductive assumption while the definitions are visited
 		ndef := 0
